@@ -3,6 +3,23 @@ import GnarkVerif.Model.Sha256
 import GnarkVerif.Model.Transcript
 import GnarkVerif.Model.FieldOps
 import GnarkVerif.Model.FFT
+import GnarkVerif.Model.KZG
+import GnarkVerif.Model.Alias
+import GnarkVerif.Model.Merkle
+import GnarkVerif.Model.Pairing
+import GnarkVerif.Model.Conv
+import GnarkVerif.Model.ForkJoin
+import GnarkVerif.Model.ArgHash
+import GnarkVerif.Model.ArgPairing
+import GnarkVerif.Model.PointOps
+import GnarkVerif.Model.PointCodecOps
+import GnarkVerif.Model.SigOps
+import GnarkVerif.Model.HashToField
+import GnarkVerif.Model.ScalarMul
+import GnarkVerif.Model.MiMC
+import GnarkVerif.Model.Poseidon2
+import GnarkVerif.Model.SIS
+import GnarkVerif.Model.TowerExec
 /-
 Line-protocol driver: one op per input line, one canonical result per output line.
 The Go harness runs the real implementation on the same lines; bin/check diffs the two streams.
@@ -15,6 +32,35 @@ def handleLine (line : String) : String :=
   | "C01" :: rest => FieldOps.handle rest
   | "C15" :: "sha256" :: rest => Transcript.handle Sha256.hash rest
   | "C10" :: rest => FFT.handle rest
+  | "C11" :: rest => KZG.handle rest
+  | "C19" :: rest => Alias.handle rest
+  | "C16" :: rest => Merkle.handle rest
+  | "C05" :: rest => Pairing.handle rest
+  | "C08" :: rest => Conv.handle rest
+  | "C18" :: rest => ForkJoin.handle rest
+  | "C17" :: "pedersen" :: rest => ArgPairing.handle ("pedersen" :: rest)
+  | "C17" :: "shplonk" :: rest => ArgPairing.handle ("shplonk" :: rest)
+  | "C17" :: "fflonk" :: rest => ArgPairing.handle ("fflonk" :: rest)
+  | "C17" :: "permutation" :: rest => ArgPairing.handle ("permutation" :: rest)
+  | "C17" :: "plookup" :: rest => ArgPairing.handle ("plookup" :: rest)
+  | "C17" :: "mpcsetup" :: rest => ArgPairing.handle ("mpcsetup" :: rest)
+  | "C17" :: "vortex" :: rest => ArgHash.handle ("vortex" :: rest)
+  | "C17" :: "fri" :: rest => ArgHash.handle ("fri" :: rest)
+  | "C17" :: "friopen" :: rest => ArgHash.handle ("friopen" :: rest)
+  | "C17" :: "friprove" :: rest => ArgHash.handle ("friprove" :: rest)
+  | "C02" :: rest => PointOps.handle rest
+  | "C07" :: rest => PointCodec.handle rest
+  | "C12" :: rest => SigOps.handle rest
+  | "C13" :: rest => HashToField.handle rest
+  | "C03" :: rest => ScalarMul.handle rest
+  | "C14" :: "mimc" :: rest => MiMC.handle rest
+  | "C14" :: "p2perm" :: rest => Poseidon2.handlePerm rest
+  | "C14" :: "p2comp" :: rest => Poseidon2.handleComp rest
+  | "C14" :: "md" :: rest => Poseidon2.handleMD rest
+  | "C14" :: "vx" :: rest => Poseidon2.handleVx rest
+  | "C14" :: "sis" :: rest => SIS.handleWith true rest
+  | "C14" :: "sism" :: rest => SIS.handle rest
+  | "C06slp" :: rest => TowerExec.handle rest
   | _ => "bad-op"
 
 partial def loop (h : IO.FS.Stream) (out : IO.FS.Stream) : IO Unit := do
